@@ -243,6 +243,88 @@ func runC06(c *Ctx) {
 	}
 	c.Check(agree && len(sets) == 3, r2, "appliers:same-guard-set", token.NoPos, "the three appliers consult the same guard set: "+strings.Join(ref, ","))
 	c.Floor(r2, 16)
+
+	// base-size-known: patchDeltaWriter can compare the delta's declared source size with the real base only when the
+	// base is a *bytes.Reader (the comparison sits behind that type assertion). Every base handed to it is therefore
+	// statically a *bytes.Reader: an argument of that type, or the result of a package function all of whose returns are.
+	const r2s = "base-size-known"
+	if pdw := c.MustFunc(r2s, pfShort+".patchDeltaWriter"); pdw != nil {
+		c.Analysed(pdw)
+		conditional := false
+		ast.Inspect(pdw.Decl.Body, func(n ast.Node) bool {
+			if ifs, ok := n.(*ast.IfStmt); ok {
+				if as, ok := ifs.Init.(*ast.AssignStmt); ok && len(as.Rhs) == 1 {
+					if ta, ok := unparen(as.Rhs[0]).(*ast.TypeAssertExpr); ok && ta.Type != nil && strings.HasSuffix(info.Types[ta.Type].Type.String(), "bytes.Reader") {
+						conditional = true
+					}
+				}
+			}
+			return true
+		})
+		baseIdx := -1
+		for i, pv := range paramObjs(info, pdw.Decl) {
+			if strings.HasSuffix(pv.Type().String(), "io.ReaderAt") {
+				baseIdx = i
+			}
+		}
+		isBytesReader := func(t types.Type) bool { return t != nil && t.String() == "*bytes.Reader" }
+		if !conditional {
+			c.Hold(r2s, pdw.Name(), pdw.Decl.Pos(), "the source-size comparison does not depend on the base's dynamic type")
+		} else if baseIdx < 0 {
+			c.Unresolved(r2s, pdw.Name(), pdw.Decl.Pos(), "io.ReaderAt parameter not found")
+		} else {
+			cg := p.callGraph()
+			nCalls := 0
+			for _, fi := range p.FuncsIn(pfShort) {
+				for _, e := range cg.edges[fi.Obj] {
+					if e.Callee != pdw.Obj || baseIdx >= len(e.Call.Args) {
+						continue
+					}
+					nCalls++
+					c.Analysed(fi)
+					arg := e.Call.Args[baseIdx]
+					ok, why := false, ""
+					if isBytesReader(info.Types[arg].Type) {
+						ok = true
+					} else if obj := objOf(info, arg); obj != nil {
+						// a local assigned from a package function: all its returns must be *bytes.Reader or nil
+						ast.Inspect(fi.Decl.Body, func(n ast.Node) bool {
+							as, isAs := n.(*ast.AssignStmt)
+							if !isAs || len(as.Rhs) != 1 || objOf(info, as.Lhs[0]) != obj {
+								return true
+							}
+							call, isCall := unparen(as.Rhs[0]).(*ast.CallExpr)
+							if !isCall {
+								return true
+							}
+							g := p.FuncOf(Callee(info, call))
+							if g == nil || g.Decl.Body == nil {
+								why = "produced by a call that cannot be followed"
+								return true
+							}
+							ok = true
+							ast.Inspect(g.Decl.Body, func(m ast.Node) bool {
+								if _, isLit := m.(*ast.FuncLit); isLit {
+									return false
+								}
+								if r, isRet := m.(*ast.ReturnStmt); isRet && len(r.Results) > 0 && !isNil(info, r.Results[0]) && !isBytesReader(info.Types[r.Results[0]].Type) {
+									ok = false
+									why = g.Name() + " can return a base of static type " + info.Types[r.Results[0]].Type.String() + " (" + p.Pos(r.Pos()) + "): patchDeltaWriter then skips the source-size comparison and applies a delta whose declared source size disagrees with its base"
+								}
+								return true
+							})
+							return true
+						})
+					}
+					c.Check(ok, r2s, fi.Name()+"->patchDeltaWriter:base", e.Call.Pos(), orStr(why, "the base is statically a *bytes.Reader, so the declared source size is compared with the real one"))
+				}
+			}
+			if nCalls == 0 {
+				c.Unresolved(r2s, pdw.Name()+":callers", pdw.Decl.Pos(), "no caller found")
+			}
+		}
+	}
+	c.Floor(r2s, 1)
 }
 
 func condHasNeqWith(info *types.Info, e ast.Expr, varName string) bool {
